@@ -242,6 +242,11 @@ func (f *frame) exec(ins ssa.Instruction, st *State) {
 	case *ssa.Range:
 		x := f.val(i.X, st)
 		f.set(i, T{x.S, x.Sort, i.X.Type()}) // iterator = the collection
+		if mt, ok := i.X.Type().Underlying().(*types.Map); ok {
+			// ghost set of keys already produced by this iteration
+			ks := e.sortOf(mt.Key())
+			e.setHeap(st, f.visHeap(i), "(Array "+ks+" Bool)", "((as const (Array "+ks+" Bool)) false)")
+		}
 	case *ssa.Next:
 		f.next(i, st)
 	case *ssa.Select:
@@ -254,6 +259,30 @@ func (f *frame) exec(ins ssa.Instruction, st *State) {
 	case *ssa.Call:
 		rs := f.call(i, i.Common(), st)
 		f.bindResults(i, rs)
+		if f == f.root {
+			cname := ""
+			if sc := i.Common().StaticCallee(); sc != nil {
+				cname = sc.Name()
+			} else if i.Common().IsInvoke() {
+				cname = i.Common().Method.Name()
+			}
+			if cname != "" {
+				if len(rs) == 1 && rs[0].Sort == "Bool" {
+					e.setHeap(st, "LAST_"+cname, "Bool", rs[0].S)
+				}
+				if len(rs) == 1 && rs[0].Sort == "Slice" {
+					if sl, ok := rs[0].Go.Underlying().(*types.Slice); ok {
+						if bt, ok := sl.Elem().Underlying().(*types.Basic); ok && bt.Kind() == types.Uint8 {
+							e.declFun("bytesval", []string{"(Array Int Int)", "Int", "Int"}, "Int")
+							h, hs := f.elemHeap(sl.Elem())
+							e.setHeap(st, "LASTB_"+cname, "Int", "(bytesval (select "+e.H(st, h, hs)+" (sarr "+rs[0].S+")) (soff "+rs[0].S+") (slen "+rs[0].S+"))")
+						}
+					}
+				}
+				e.setHeap(st, "CALLED_"+cname, "Bool", "true")
+				e.setHeap(st, "COUNT_"+cname, "Int", "(+ "+e.H(st, "COUNT_"+cname, "Int")+" 1)")
+			}
+		}
 	case *ssa.Defer:
 		c := i.Common()
 		var args []T
@@ -356,6 +385,14 @@ func (f *frame) unop(i *ssa.UnOp, st *State) {
 			hn, hidx = a.heap, a.ref
 		}
 		e.assume(implies(st.cond, f.factsFrom(n, v.Go, st, hn, hidx)))
+		if g, ok := i.X.(*ssa.Global); ok && v.Sort == "Iface" && g.String() == "crypto/rand.Reader" {
+			e.assume("(not (= (ityp " + n + ") 0))") // A-RAND: the system random source exists
+		}
+		if g, ok := i.X.(*ssa.Global); ok && v.Sort == "Iface" && strings.HasPrefix(g.Name(), "Err") {
+			// A-GLOBERR: exported/unexported error sentinels (var ErrX = errors.New(...)) are never nil
+			e.assume("(not (= (ityp " + n + ") 0))")
+			e.assumed["A-GLOBERR: package-level error sentinel "+g.String()+" is non-nil"] = true
+		}
 		out := T{n, v.Sort, i.Type()}
 		if fa, ok := f.addrs[i.X].(fieldAddr); ok && strings.HasPrefix(fa.guardS, "S_"+e.privPkg+"_") && e.privPkg != "" {
 			f.protect(out)
@@ -491,6 +528,12 @@ func (f *frame) binop(at ssa.Instruction, op token.Token, x, y T, xt types.Type,
 		if bits == 0 || bits == 64 {
 			// A-INT: 64-bit arithmetic is treated as mathematical (no wrap-around)
 			return mk(s)
+		}
+		if isUnsigned(rt) {
+			// narrow unsigned arithmetic is exact modular arithmetic
+			n := e.fresh("ar", "Int")
+			e.assume(eq(n, "(mod "+s+" "+pow2(uint(bits))+")"))
+			return mk(n)
 		}
 		n := e.fresh("ar", "Int")
 		e.assume(implies(st.cond, f.facts(n, rt, st)))
@@ -768,6 +811,17 @@ func (f *frame) next(i *ssa.Next, st *State) {
 	k := f.freshVal("nk", mt.Key(), st)
 	val, inDom := f.mapLookup(T{it.S, "Int", it.Go}, k.S, st)
 	e.assume(implies(and(st.cond, ok), inDom))
+	if rg, isR := i.Iter.(*ssa.Range); isR {
+		// each key is produced once; when the iteration ends every key has been produced
+		ks := e.sortOf(mt.Key())
+		vh, vs := f.visHeap(rg), "(Array "+ks+" Bool)"
+		vis := e.H(st, vh, vs)
+		e.assume(implies(and(st.cond, ok), not("(select "+vis+" "+k.S+")")))
+		d, ds, _, _ := f.mapHeaps(mt)
+		dom := "(select " + e.H(st, d, ds) + " " + it.S + ")"
+		e.assume(implies(and(st.cond, not(ok)), "(forall ((vk "+ks+")) (! (=> (select "+dom+" vk) (select "+vis+" vk)) :pattern ((select "+vis+" vk))))"))
+		e.setHeap(st, vh, vs, ite(ok, "(store "+vis+" "+k.S+" true)", vis))
+	}
 	vn := e.fresh("nv", e.sortOf(mt.Elem()))
 	e.assume(eq(vn, val))
 	e.assume(implies(st.cond, f.facts(vn, mt.Elem(), st)))
@@ -843,4 +897,8 @@ func (f *frame) chanElemInv(v T, cond string, st *State, send bool, at ssa.Instr
 		return
 	}
 	e.assume(implies(cond, t))
+}
+
+func (f *frame) visHeap(r *ssa.Range) string {
+	return "VIS_" + sanitize(relName(f.fn)) + "_" + r.Name()
 }
